@@ -82,7 +82,9 @@ fn check_image_ctx(scene: &Scene, door: Door, kind: TargetKind, mode: u8, r: &mu
                 inside += 1;
                 if cw == color_sentinel(idx) { r.violation(format!("inside-not-drawn|{tag}"), format!("pixel ({i},{j}) lies unambiguously inside the visible part of triangle {tri} but was not drawn"), case()); return; }
                 let got = unpack(cw) as f64;
+                r.margin("attribute(0.5% stated)", (got - attr).abs(), 0.005);
                 if !((got - attr).abs() <= 0.005) { r.violation(format!("attribute|{tag}"), format!("pixel ({i},{j}) (triangle {tri}): attribute {got}, perspective-correct value {attr}"), case()); return; }
+                if let Some(d) = dw { r.margin("depth(0.2% stated)", (d as f64 - invw).abs(), 0.002 * invw); }
                 if let Some(d) = dw { if !((d as f64 - invw).abs() <= 0.002 * invw) { r.violation(format!("depth|{tag}"), format!("pixel ({i},{j}) (triangle {tri}): depth {d}, expected 1/w = {invw}"), case()); return; } }
             }
         }
